@@ -2,11 +2,13 @@
 that owns the property's clauses, validated once per spec (cached), and the verdict is filtered by the property's clause prefix."""
 from __future__ import annotations
 
-from .. import core, engcorpus
+from .. import core, engcorpus, interp
 
 # property -> trace spec whose clauses decide it
 SPEC_OF = {
     "C10": "CommandsTrace", "C11": "CommandsTrace", "C12": "CommandsTrace",
+    "C01": "InterpTrace", "C02": "InterpTrace", "C03": "InterpTrace", "C04": "InterpTrace", "C05": "InterpTrace",
+    "C14": "InterpTrace", "C15": "InterpTrace", "C41": "InterpTrace",
     "C06": "RunStateTrace", "C07": "RunStateTrace", "C08": "RunStateTrace", "C09": "RunStateTrace", "C13": "RunStateTrace",
 }
 # property -> design spec (module, quick cfg, thorough cfg) model-checked by TLC in the check itself
@@ -17,18 +19,40 @@ DESIGN_OF = {
     "C10": ("Commands", "Commands.cfg", "Commands.cfg"), "C11": ("Commands", "Commands.cfg", "Commands.cfg"),
     "C12": ("Commands", "Commands.cfg", "Commands.cfg"),
 }
-PROJECT = {"RunStateTrace": engcorpus.project_runstate, "CommandsTrace": engcorpus.project_commands}
+PROJECT = {"RunStateTrace": engcorpus.project_runstate, "CommandsTrace": engcorpus.project_commands,
+           "InterpTrace": interp.project_interp}
 
 
 def _validate(ctx, spec, corp):
-    traces = [PROJECT[spec](r) for r in corp["runs"]]
+    runs = corp["runs"]
+    if spec == "InterpTrace" and ctx.quick:        # the schedules replayed from the RunState graph add little here
+        runs = [r for r in runs if r["family"] != "rs"]
+    traces = [PROJECT[spec](r) for r in runs]
     traces = [t for t in traces if t["ev"]]
     verdicts, tstats = core.validate_traces(spec, traces)
-    return {"verdicts": verdicts, "tstats": tstats, "ntraces": len(traces), "nevents": sum(len(t["ev"]) for t in traces)}
+    kinds = {}
+    for t in traces:          # what the clauses were exercised on (vacuity guard, reported in the evidence)
+        for e in t["ev"]:
+            k = e["e"]
+            if k == "fl":
+                k = f"fl.{e['f']}={'on' if e['on'] else 'off'}" + (".thr" if e.get("thr") and e["f"] == "started" else "")
+            elif k == "rec":
+                k = "rec." + e["state"]
+            elif k in ("edit", "inject", "cf", "req"):
+                k = f"{k}.{e.get('k', '')}{e.get('op', '')}.{e.get('res', '')}"
+            elif k == "thr":
+                k = f"thr.awaiting={e['awaiting']}"
+            elif k == "ta":
+                k = f"ta.cond={e['condNow']}"
+            kinds[k] = kinds.get(k, 0) + 1
+    return {"verdicts": verdicts, "tstats": tstats, "ntraces": len(traces), "nevents": sum(len(t["ev"]) for t in traces),
+            "event_kinds": dict(sorted(kinds.items()))}
 
 
 def _design(ctx):
     from .. import tlc
+    if ctx.prop not in DESIGN_OF:
+        return {"module": "", "states": 0, "transitions": 0, "depth": 0}
     mod, q, t = DESIGN_OF[ctx.prop]
     res = tlc.run_tlc(mod, q if ctx.quick else t, workers=8, timeout=1800)
     if not res.ok:
@@ -61,7 +85,7 @@ def run(ctx: core.Ctx) -> core.Outcome:
     cov = dict(states=design_run["states"], transitions=design_run["transitions"], design_spec=design_run["module"],
                design_depth=design_run["depth"], replay_graph_states=design.get("states", 0),
                traces_validated_against_impl=val["ntraces"], events_validated=val["nevents"], runs_by_family=fams,
-               graph_edges=design.get("edges", 0), corpus_from_cache=corp["from_cache"], verdict_from_cache=hit, **val["tstats"],
+               graph_edges=design.get("edges", 0), event_kinds=val.get("event_kinds", {}), corpus_from_cache=corp["from_cache"], verdict_from_cache=hit, **val["tstats"],
                samples=[{"method": sample["method"], "steps": sample["steps"][:12]}])
     return core.Outcome(level="model_checking", coverage=cov, violations=viols, assumptions=[
         "virtual time: engine.tick(t, dt) is called directly with a NullTimer; requests are applied between ticks",
